@@ -146,7 +146,7 @@ CHECKS["C07"] = dict(
           "over the selected rows of its group, a row with a null key indexes (numpy wrap-around of -1) the extra trailing slot, which no row writes and which "
           "therefore holds the neutral value (untouched_slot_neutral); groups without a selected row likewise; container rule as decision logic. "
           "Correspondence: transform=True vs the same call with transform=False re-broadcast by the harness, for all reductions incl. var/std/median/apply, "
-          "contiguous / chunk-factorized / pre-chunked arrow keys, numpy / indexed pandas / polars values, masks. Source level (new): source_transform_eq_lookup - the ngroups + 1 slots written by the translated _group_by_reduce, fancy-indexed with the row codes (wrap of -1 to the trailing slot), give valid rows their group's definition and null-key rows the neutral value."),
+          "contiguous / chunk-factorized / pre-chunked arrow keys, numpy / indexed pandas / polars values, masks. Source level (new): source_transform_eq_lookup - the ngroups + 1 slots written by the translated _group_by_reduce, fancy-indexed with the row codes (wrap of -1 to the trailing slot), give valid rows their group's definition and null-key rows the neutral value; source_transform_shape: the ngroups + 1 slots, the dropped / restored null slot of the chunked route and the fancy-index broadcast are re-extracted from the AST of core.py on every run."),
     note="The public glue (index restoration, container conversion, unification of chunked codes before indexing) is tied by correspondence; size() has no values input, so no container/index rule is demanded for it.",
     technique="Lean 4 proof (lookup theorem over the kernel contract) + metamorphic differential testing against the non-transform result",
     design="§7 C07",
@@ -160,7 +160,7 @@ CHECKS["C03"] = dict(
           "chunk-wise factorization). Metamorphic correspondence through the public API: baseline strategy vs random strategies (threads 1..4, whole / "
           "chunk-wise / monotonic / partially monotonic / pre-chunked arrow keys, contiguous / arrow-chunked values, random completion orders through the real "
           "gathering code) for reductions, transform, cumulative, rolling, shift/diff, EMA, all mask kinds; three real-size cases (1M and 2M rows, no scaling). "
-          "Source level (new): source_blockwise_eq_single_pass - the translated _group_by_reduce run block by block (any blocks) and merged by the translated reduce_array_pair in the order of combine_chunk_results_for_factorized_key equals the translated kernel in one pass (both sides are runs of the regenerated source)."),
+          "Source level (new): source_blockwise_eq_single_pass - the translated _group_by_reduce run block by block (any blocks) and merged by the translated reduce_array_pair in the order of combine_chunk_results_for_factorized_key equals the translated kernel in one pass (both sides are runs of the regenerated source); source_combine_fold_shape pins the hand-mirrored Python fold to the AST of the source."),
     note="PARTIAL: 'sums and means agree to floating-point rounding' is checked by a 1e-9 relative tolerance only (the model is exact arithmetic); real thread interleavings / data races are outside the model (tasks share no mutable arrays - assumed); the thread-count heuristic is replaced by the scaled value in the small runs and exercised unmodified in the real-size cases.",
     technique="Lean 4 proof (permutation-invariance of gathering; strategy independence as corollary of the kernel contract; pointer-table lemma) + metamorphic differential testing across strategies",
     design="§7 C03",
